@@ -6,6 +6,8 @@
 (* A URI is a record of parts; strings are TLA+ strings ("" = absent).     *)
 (***************************************************************************)
 EXTENDS Integers, Sequences, FiniteSets, TLC
+(* Dispatch is a function of the URI (and explicit credentials) at hand only: configuring a service a second time yields what configuring a fresh one with   *)
+(* the second URI yields -- whatever it was configured with before (C20 replays pairs whose stored fields are proper prefixes / extensions of one another). *)
 
 (* parts: sch (spelling as written), canon (lower-case scheme), user, key, host, port (0 = absent), path, query, frag *)
 PortStr(p) == CASE p = 1 -> "1" [] p = 80 -> "80" [] p = 8080 -> "8080" [] p = 65535 -> "65535" [] OTHER -> ""
